@@ -18,7 +18,8 @@ from yatiml.introspection import class_subobjects
 from yatiml.irecognizer import format_rec_error
 from yatiml.recognizer import Recognizer
 from yatiml.util import (
-        generic_type_args, is_generic_sequence, is_generic_mapping,
+        find_recursive_alias, generic_type_args, is_generic_sequence,
+        is_generic_mapping,
         is_generic_union, is_string_like, scalar_type_to_tag, strip_tags,
         type_to_desc, yaml12_float_regex)
 
@@ -66,6 +67,7 @@ class Loader(yaml.SafeLoader):
             # against the document type like any other value.
             mark = self.get_mark()
             node = yaml.ScalarNode('tag:yaml.org,2002:null', '', mark, mark)
+        self.__check_not_recursive(node)
         node = self.__process_node(node, type(self).document_type)
         return node
 
@@ -81,8 +83,24 @@ class Loader(yaml.SafeLoader):
         """
         node = cast(yaml.Node, super().get_node())
         if node is not None:
+            self.__check_not_recursive(node)
             node = self.__process_node(node, type(self).document_type)
         return node
+
+    def __check_not_recursive(self, node: yaml.Node) -> None:
+        """Rejects documents in which an alias refers to its own anchor.
+
+        Such a document cannot be converted to a tree of objects, and
+        trying to would recurse until the stack runs out.
+
+        Args:
+            node: The root node of the document.
+        """
+        recursive_node = find_recursive_alias(node)
+        if recursive_node is not None:
+            raise RecognitionError(
+                    '{}\nThis contains an alias to itself, which is not'
+                    ' supported.'.format(recursive_node.start_mark))
 
     def construct_object(self, node: yaml.Node, deep: bool = False) -> Any:
         """Construct an object from a node, called by PyYAML.
